@@ -491,7 +491,7 @@ def run(ctx):
     tier, seed = ctx["tier"], ctx["seed"]
     wide = 4 if ctx.get("widened") else 1
     n_random = C.Budget(tier, 550, 4500).n * wide
-    deadline = t0 + (420 if tier == "thorough" else 50) * (2.0 if wide > 1 else 1)
+    deadline = t0 + (420 if tier == "thorough" else 70) * (1.5 if wide > 1 else 1)
     run_ = CC.Runner(res, "C06", ctx, oracle)
 
     for name, probes, ops, _ in CC.corpus_histories("C06"):
